@@ -26,6 +26,8 @@ def atom_id(a):
         parts.append(f"m{a['mask']:x}" + ("-cond" if a.get("condensed") else ""))
     if a.get("tail") is False:
         parts.append("notail")
+    if a.get("cmname"):
+        parts.append("cm-" + a["cmname"])
     for k in ("min", "max", "term", "vlen", "sidx"):
         if a.get(k) is not None:
             parts.append(f"{k}{a[k]}")
@@ -161,10 +163,103 @@ def ref_pdu(a, v):
     return p
 
 
+CM_ATOMS = {
+    # name: (internal type, physical type, compu spec, valid internal range, injective)
+    "lin-2x+3": ("A_UINT32", "A_INT32", {"cat": "LINEAR", "scales": [
+        {"num": [3, 2], "den": [1], "lo": 0, "hi": 100}]}, (0, 100)),
+    "lin-neg": ("A_INT32", "A_INT32", {"cat": "LINEAR", "scales": [
+        {"num": [10, -3], "den": [1], "lo": -40, "hi": 40}]}, (-40, 40)),
+    "lin-float": ("A_UINT32", "A_FLOAT64", {"cat": "LINEAR", "scales": [
+        {"num": [-40, 0.5], "den": [1], "lo": 0, "hi": 250}]}, (0, 250)),
+    "lin-den": ("A_INT32", "A_FLOAT64", {"cat": "LINEAR", "scales": [
+        {"num": [7, 3], "den": [2], "lo": -100, "hi": 100}]}, (-100, 100)),
+    "scale-lin": ("A_INT32", "A_INT32", {"cat": "SCALE-LINEAR", "scales": [
+        {"num": [0, 1], "den": [1], "lo": -100, "hi": 0},
+        {"num": [0, 2], "den": [1], "lo": {"v": 0, "it": "OPEN"}, "hi": 50},
+        {"num": [50, 1], "den": [1], "lo": {"v": 50, "it": "OPEN"}, "hi": 100}]}, (-100, 100)),
+    "tab-intp": ("A_UINT32", "A_INT32", {"cat": "TAB-INTP", "points": [(0, 0), (3, 100), (10, 240)],
+                                         "scales": [{"lo": 0, "const": 0}, {"lo": 3, "const": 100},
+                                                    {"lo": 10, "const": 240}]}, (0, 10)),
+    "ratfunc": ("A_UINT32", "A_FLOAT64", {"cat": "RAT-FUNC",
+                                          "scales": [{"num": [0, 1], "den": [100], "lo": 0, "hi": 200}],
+                                          "inv_scales": [{"num": [0, 100], "den": [1], "lo": -10,
+                                                          "hi": 10}]}, (0, 200)),
+    "texttable": ("A_UINT32", "A_UNICODE2STRING", {"cat": "TEXTTABLE", "scales": [
+        {"lo": 0, "hi": 0, "const": "off"}, {"lo": 1, "hi": 1, "const": "on"},
+        {"lo": 4, "hi": 9, "const": "range", "inv": 6}, {"lo": 20, "hi": 20, "const": "edge"}]},
+        (0, 20)),
+}
+
+
+def run_cmatom(sx, cfg, env):
+    """DOPs with a compu method.  The symbolic input is the internal value k; the physical value
+    is its image under the (real) compu method, so that it is exactly representable:
+      C01  encode(image) -> decode gives the image back
+      C02  the PDU carries k (injective methods) laid out by the reference
+      C03  the reference PDU of k decodes and re-encodes to itself
+    (C07 checks the conversions themselves against the formula.)"""
+    from odxtools.exceptions import OdxError
+    rq = env["rq"]
+    prop = cfg["prop"]
+    it, pt, cmspec, (lo, hi) = CM_ATOMS[cfg["cmname"]]
+    bl = cfg["bl"]
+    k = sx.int("k", lo - 3, hi + 3)
+    dop = rq.parameters.val.dop
+    base = dict(cfg)
+    base.pop("cm", None)
+    base["dt"] = it
+    if not dop.compu_method.is_valid_internal_value(k):
+        sx.cover("invalid-internal")
+        return
+    canonical = True
+    if cmspec["cat"] == "TEXTTABLE":
+        # canonical internal values of a text table: the one the text encodes to
+        seg = [sc for sc in cmspec["scales"]
+               if s_and(k >= sc["lo"], k <= sc.get("hi", sc["lo"]))]
+        canonical = bool(k == seg[0].get("inv", seg[0]["lo"]))
+    y = dop.compu_method.convert_internal_to_physical(k)
+    if prop in ("C01", "C02", "C04", "C08"):
+        try:
+            pdu = rq.encode(val=y)
+        except OdxError:
+            sx.fail("image-of-a-valid-internal-value-encodes")
+            return
+        sx.cover("accepted")
+        sx.observe("pdu", core.frozen(pdu))
+        dec = rq.decode(core.frozen(pdu))
+        if isinstance(y, (float, core.SymFloat)):
+            sx.require(_feq(dec["val"], y), "roundtrip:value")
+        else:
+            sx.require(dec["val"] == y, "roundtrip:value")
+        if prop == "C02" and canonical:
+            rp = ref_pdu(base, k)
+            if rp is not None:
+                sx.require(core.frozen(pdu) == rp.result(), "pdu-bit-exact")
+        if prop == "C08":
+            sx.require(8 * len(pdu) == rq.get_static_bit_length(), "static-bit-length-matches-encoding")
+    elif prop == "C03":
+        if not canonical:
+            return
+        rp = ref_pdu(base, k)
+        if rp is None:
+            return
+        msg = rp.result()
+        dec = rq.decode(msg)
+        try:
+            pdu2 = rq.encode(**dec)
+        except OdxError:
+            sx.fail("decoded-values-encode")
+            return
+        sx.cover("accepted")
+        sx.require(core.frozen(pdu2) == msg, "decode-then-encode-reproduces-the-pdu")
+
+
 def run_atom(sx, cfg, env):
     from odxtools.exceptions import OdxError, DecodeError
     from odxtools.decodestate import DecodeState
     import warnings
+    if cfg.get("cmname"):
+        return run_cmatom(sx, cfg, env)
     rq = env["rq"]
     a = cfg
     prop = cfg["prop"]
@@ -468,6 +563,12 @@ def atoms(tier, seed):
                     for hl in ((True, False) if dtp == "A_UNICODE2STRING" else (True,)):
                         out.append(dict(dt=dtp, enc=enc, bl=bl, bitpos=0, hl=hl, bytepos=None,
                                         sidx=sidx))
+    # DOPs with compu methods (see run_cmatom)
+    for name, (it, pt, cmspec, _) in CM_ATOMS.items():
+        for bl, bitpos, hl in (((16, 3, False),) if tier == "quick" else
+                               ((8, 0, True), (16, 3, False), (12, 4, True))):
+            out.append(dict(dt=it, enc=None, bl=bl, bitpos=bitpos, hl=hl, bytepos=None, cm=cmspec,
+                            ptype=pt, cmname=name))
     # BIT-MASK (plain and condensed) on integers
     for dtp in ("A_UINT32", "A_INT32"):
         for bl, mask in ((8, 0x0F), (8, 0xA5), (16, 0xF00F), (16, 0x3FC), (12, 0x555), (24, 0xFF00FF)):
@@ -505,7 +606,8 @@ def atoms(tier, seed):
     if tier == "quick":
         # seeded sample of the full product; all boundary members are kept
         def boundary(a):
-            return ((a["dt"] not in INT_TYPES and a.get("dct", "std") == "std") or
+            return (a.get("cmname") is not None or
+                    (a["dt"] not in INT_TYPES and a.get("dct", "std") == "std") or
                     a.get("enc") in ("BCD-P", "BCD-UP") or
                     (a["dt"] in INT_TYPES and a["bl"] in (1, 2, 8, 64) and a["bitpos"] in (0, 7)
                      and a["bytepos"] is None))
@@ -522,6 +624,10 @@ def atoms(tier, seed):
 def configs_for(prop, tier, seed):
     cfgs = []
     for a in atoms(tier, seed):
+        if a.get("cmname") and (prop == "C04" or (tier == "quick" and prop not in ("C01", "C03"))):
+            # compu-method DOPs: FP-heavy (8..45 s each); quick tier only where they matter most.
+            # C04: rounding by a compu method is specified behaviour, not misrepresentation
+            continue
         c = dict(a)
         c["prop"] = prop
         c["harness"] = "atom"
